@@ -448,7 +448,7 @@ func (m *Machine) bytesSlice(b []byte) *SliceV {
 		arr.E = append(arr.E, Const(8, uint64(c)))
 	}
 	o := m.newObject(arr, types.Typ[types.Uint8], "bytes")
-	return &SliceV{Alts: []SliceAlt{{TS.True, o, 0}}, Len: ConstI(64, int64(len(b)))}
+	return &SliceV{Alts: []SliceAlt{{TS.True, o, 0, 0}}, Len: ConstI(64, int64(len(b)))}
 }
 
 // ---------- slices / arrays ----------
@@ -456,7 +456,7 @@ func (m *Machine) bytesSlice(b []byte) *SliceV {
 func (m *Machine) sliceCapMax(s *SliceV) int {
 	c := 0
 	for _, a := range s.Alts {
-		if n := len(a.Obj.val.(*ArrayV).E) - a.Off; n > c {
+		if n := a.room(); n > c {
 			c = n
 		}
 	}
@@ -478,7 +478,7 @@ func (f *Frame) indexAddr(x *ssa.IndexAddr) Value {
 	case *SliceV:
 		m.noPanic(f.g, Or(Slt(idx, Const(64, 0)), Sge(idx, v.Len)), "index out of range", x)
 		for _, a := range v.Alts {
-			n := len(a.Obj.val.(*ArrayV).E) - a.Off
+			n := a.room()
 			for j := 0; j < n; j++ {
 				g := And(a.G, Eq(idx, ConstI(64, int64(j))), Slt(ConstI(64, int64(j)), v.Len))
 				if !g.IsFalse() {
@@ -546,7 +546,7 @@ func (f *Frame) makeSlice(x *ssa.MakeSlice) Value {
 		arr.E[i] = m.zero(et)
 	}
 	o := m.newObject(arr, et, "make")
-	return &SliceV{Alts: []SliceAlt{{TS.True, o, 0}}, Len: ln}
+	return &SliceV{Alts: []SliceAlt{{TS.True, o, 0, 0}}, Len: ln}
 }
 
 func concreteInt(t *Term) (int64, bool) {
@@ -557,6 +557,39 @@ func concreteInt(t *Term) (int64, bool) {
 }
 
 func (f *Frame) slice(x *ssa.Slice) Value {
+	if x.Max != nil {
+		mx := f.term(x.Max)
+		if v, ok := concreteInt(mx); ok {
+			return f.sliceCore(x, int(v))
+		}
+		if len(mx.cases) == 0 {
+			panic(notEncoded("3-index slice with symbolic max"))
+		}
+		// small-domain max: one instance per value, merged under the value's condition
+		var res Value
+		g0 := f.g
+		for i := len(mx.cases) - 1; i >= 0; i-- {
+			kc := mx.cases[i]
+			f.g = And(g0, kc.c)
+			if f.g.IsFalse() {
+				continue
+			}
+			v := f.sliceCore(x, int(int64(kc.k)))
+			if res == nil {
+				res = v
+			} else {
+				res = mergeValue(kc.c, v, res)
+			}
+		}
+		f.g = g0
+		return res
+	}
+	return f.sliceCore(x, -1)
+}
+
+// sliceCore: capLim is the concrete capacity limit of a 3-index slice expression
+// (absolute: max), -1 = none.
+func (f *Frame) sliceCore(x *ssa.Slice, capLim int) Value {
 	m := f.m
 	var lo, hi *Term
 	if x.Low != nil {
@@ -567,8 +600,25 @@ func (f *Frame) slice(x *ssa.Slice) Value {
 	if x.High != nil {
 		hi = f.term(x.High)
 	}
-	if x.Max != nil {
-		panic(notEncoded("3-index slice"))
+	// limited(off, lo): Cap of the result alternative that starts lo elements into one with limit old
+	limited := func(old, l int) int {
+		c := old
+		if c > 0 {
+			c -= l
+			if c <= 0 {
+				c = -1
+			}
+		}
+		if capLim >= 0 {
+			n := capLim - l
+			if n <= 0 {
+				n = -1
+			}
+			if c == 0 || (n > 0 && n < c) || n < 0 {
+				c = n
+			}
+		}
+		return c
 	}
 	switch v := f.get(x.X).(type) {
 	case *SliceV:
@@ -578,28 +628,31 @@ func (f *Frame) slice(x *ssa.Slice) Value {
 		capMax := ConstI(64, int64(m.sliceCapMax(v)))
 		m.noPanic(f.g, Or(Slt(lo, Const(64, 0)), Sgt(lo, hi), Sgt(hi, capMax)), "slice bounds out of range", x)
 		r := &SliceV{Len: Sub(hi, lo)}
+		if capLim >= 0 {
+			m.noPanic(f.g, Or(Sgt(hi, ConstI(64, int64(capLim))), Sgt(ConstI(64, int64(capLim)), capMax)), "slice bounds out of range (max)", x)
+		}
 		if l, ok := concreteInt(lo); ok {
 			for _, a := range v.Alts {
-				n := len(a.Obj.val.(*ArrayV).E) - a.Off
+				n := a.room()
 				if int(l) > n {
 					continue
 				}
-				r.Alts = append(r.Alts, SliceAlt{a.G, a.Obj, a.Off + int(l)})
+				r.Alts = append(r.Alts, SliceAlt{a.G, a.Obj, a.Off + int(l), limited(a.Cap, int(l))})
 			}
 			// per-alternative capacity check
 			for _, a := range v.Alts {
-				n := len(a.Obj.val.(*ArrayV).E) - a.Off
+				n := a.room()
 				m.noPanic(f.g, And(a.G, Sgt(hi, ConstI(64, int64(n)))), "slice bounds out of range (cap)", x)
 			}
 			return r
 		}
 		// symbolic low bound: case split over offsets
 		for _, a := range v.Alts {
-			n := len(a.Obj.val.(*ArrayV).E) - a.Off
+			n := a.room()
 			for j := 0; j <= n; j++ {
 				g := And(a.G, Eq(lo, ConstI(64, int64(j))))
 				if !g.IsFalse() {
-					r.Alts = append(r.Alts, SliceAlt{g, a.Obj, a.Off + j})
+					r.Alts = append(r.Alts, SliceAlt{g, a.Obj, a.Off + j, limited(a.Cap, j)})
 				}
 			}
 		}
@@ -615,7 +668,10 @@ func (f *Frame) slice(x *ssa.Slice) Value {
 			panic(notEncoded("slice of array pointer with symbolic base"))
 		}
 		m.noPanic(f.g, Or(Slt(lo, Const(64, 0)), Sgt(lo, hi), Sgt(hi, ConstI(64, int64(n)))), "slice bounds out of range", x)
-		return &SliceV{Alts: []SliceAlt{{v.Alts[0].G, v.Alts[0].Obj, int(l)}}, Len: Sub(hi, lo)}
+		if capLim > n {
+			m.noPanic(f.g, TS.True, "slice bounds out of range (max)", x)
+		}
+		return &SliceV{Alts: []SliceAlt{{v.Alts[0].G, v.Alts[0].Obj, int(l), limited(0, int(l))}}, Len: Sub(hi, lo)}
 	}
 	panic(notEncoded("Slice on %T", f.get(x.X)))
 }
@@ -650,7 +706,7 @@ func (m *Machine) appendValues(s *SliceV, vals []Value, vlen *Term, et types.Typ
 	capMax := m.sliceCapMax(s)
 	var fits []*Term
 	for _, a := range s.Alts {
-		n := len(a.Obj.val.(*ArrayV).E) - a.Off
+		n := a.room()
 		fit := And(a.G, Sle(newLen, ConstI(64, int64(n))))
 		if fit.IsFalse() {
 			continue
@@ -673,7 +729,7 @@ func (m *Machine) appendValues(s *SliceV, vals []Value, vlen *Term, et types.Typ
 			}
 		}
 		a.Obj.val = na
-		res.Alts = append(res.Alts, SliceAlt{fit, a.Obj, a.Off})
+		res.Alts = append(res.Alts, SliceAlt{fit, a.Obj, a.Off, a.Cap})
 	}
 	grow := Not(Or(fits...))
 	if !And(g, grow).IsFalse() {
@@ -702,7 +758,7 @@ func (m *Machine) appendValues(s *SliceV, vals []Value, vlen *Term, et types.Typ
 			na.E[j] = v
 		}
 		o := m.newObject(na, et, "append")
-		res.Alts = append(res.Alts, SliceAlt{grow, o, 0})
+		res.Alts = append(res.Alts, SliceAlt{grow, o, 0, 0})
 	}
 	return res
 }
